@@ -3,6 +3,7 @@ package main
 import (
 	"fmt"
 	"go/token"
+	"go/types"
 	"sort"
 	"strings"
 
@@ -114,6 +115,77 @@ func inputBounded(a *linAn, v ssa.Value, depth int) (bool, string) {
 	return false, "operand " + path(v)
 }
 
+// atMostInput: X <= len(input) by its shape: the length itself, such a value minus something non-negative, or divided by
+// something positive (a constant or a minimum wire size, which rule T2 keeps >= 1). Sums and products are not.
+func atMostInput(a *linAn, v ssa.Value, depth int) (bool, string) {
+	if depth > 10 {
+		return false, "expression too deep"
+	}
+	positive := func(y ssa.Value) bool {
+		var pos func(y ssa.Value, d int) bool
+		pos = func(y ssa.Value, d int) bool {
+			if d > 6 {
+				return false
+			}
+			switch t := y.(type) {
+			case *ssa.Const:
+				k, ok := constInt(t)
+				return ok && k > 0
+			case *ssa.Convert:
+				return pos(t.X, d+1)
+			case *ssa.BinOp:
+				return (t.Op == token.ADD || t.Op == token.MUL) && pos(t.X, d+1) && pos(t.Y, d+1)
+			case *ssa.UnOp:
+				if t.Op == token.MUL {
+					if ia, ok := t.X.(*ssa.IndexAddr); ok {
+						if g, ok := ia.X.(*ssa.Global); ok {
+							_, _, isTable := a.c.tableOf(g.Pkg.Pkg.Path(), g.Name())
+							return isTable && strings.HasSuffix(path(ia.Index), ".WT")
+						}
+					}
+				}
+			}
+			return false
+		}
+		return pos(y, 0)
+	}
+	switch x := v.(type) {
+	case *ssa.Call:
+		if isBuiltin(x, "len") && a.derivedFrom(x.Call.Args[0]) {
+			return true, ""
+		}
+	case *ssa.Convert:
+		return atMostInput(a, x.X, depth+1)
+	case *ssa.BinOp:
+		switch x.Op {
+		case token.SUB:
+			if ok, why := atMostInput(a, x.X, depth+1); !ok {
+				return false, why
+			}
+			if k, ok := constInt(x.Y); ok {
+				if k >= 0 {
+					return true, ""
+				}
+				return false, "a negative constant is subtracted"
+			}
+			if ok, _ := a.prove(a.lin(x.Y), x.Block()); ok {
+				return true, ""
+			}
+			return false, "the subtrahend " + a.exprStr(x.Y) + " is not known to be non-negative"
+		case token.QUO:
+			if ok, why := atMostInput(a, x.X, depth+1); !ok {
+				return false, why
+			}
+			if positive(x.Y) {
+				return true, ""
+			}
+			return false, "the divisor " + a.exprStr(x.Y) + " is not known to be positive"
+		}
+		return false, "operator " + x.Op.String()
+	}
+	return false, "operand " + a.exprStr(v)
+}
+
 // upperGuards finds dominating edges bounding l from above by an input-bounded expression; reports whether the failing edge errors.
 func upperGuarded(a *linAn, l ssa.Value, at *ssa.BasicBlock) (bool, string) {
 	lf := a.lin(l)
@@ -150,6 +222,10 @@ func upperGuarded(a *linAn, l ssa.Value, at *ssa.BasicBlock) (bool, string) {
 		}
 		if ok, why := inputBounded(a, other, 0); !ok {
 			reasons = append(reasons, "bound "+path(other)+" is not derived from len(input): "+why)
+			continue
+		}
+		if ok, why := atMostInput(a, other, 0); !ok {
+			reasons = append(reasons, "bound "+a.exprStr(other)+" can exceed the length of the input ("+why+"): a count the input cannot hold passes the plausibility test")
 			continue
 		}
 		// failing edge must return a non-nil error
@@ -329,6 +405,43 @@ func ruleE5Guards(c *Ctx) []Ob {
 			}
 			if !rel {
 				continue
+			}
+			// the converse for sign guards: a wire length or count compared with a constant must not send the value 0 (the empty
+			// string, list, set or map - well-formed) to an error exit
+			for _, pr := range [][2]ssa.Value{{bo.X, bo.Y}, {bo.Y, bo.X}} {
+				kv, isK := constInt(pr[1])
+				if !isK || !isInt(pr[0].Type()) || namedOf(pr[0].Type()) == "ttype" || !wireSource(a, pr[0]) || !isWireLength(pr[0]) {
+					continue
+				}
+				x, y := int64(0), kv
+				if pr[0] == bo.Y {
+					x, y = kv, 0
+				}
+				var truth, known bool
+				switch bo.Op {
+				case token.LSS:
+					truth, known = x < y, true
+				case token.LEQ:
+					truth, known = x <= y, true
+				case token.GTR:
+					truth, known = x > y, true
+				case token.GEQ:
+					truth, known = x >= y, true
+				case token.EQL:
+					truth, known = x == y, true
+				case token.NEQ:
+					truth, known = x != y, true
+				}
+				if !known {
+					continue
+				}
+				taken := b.Succs[1]
+				if truth {
+					taken = b.Succs[0]
+				}
+				if leavesFunction(taken) {
+					s.check(!edgeErrors(taken), fname+":zero-length-accepted", c.InstrPos(iff), "a zero length / count is not refused", "a guard on a wire length refuses the value 0: an empty string, list, set or map - a well-formed value - is reported as an error: "+c.srcLine(iff.Pos()))
+				}
 			}
 			// an edge that asserts "malformed" and leaves the function straight away must carry a non-nil error
 			for k := 0; k < 2; k++ {
@@ -584,6 +697,8 @@ func ruleE5Loops(c *Ctx) []Ob {
 							}
 							if inv {
 								s.ok(key+":counted", pos, "counted loop 0 <= j < "+path(bo.Y)+" (bound sanitised by rule E5.length-sanitised)")
+							} else if loopIndependentOfInput(fn, b) {
+								s.ok(key+":descriptor", pos, "the loop's exit tests do not depend on the input (descriptor walk): a message cannot drive its trip count")
 							} else {
 								s.bad(key+":counted", pos, "loop bound changes inside the loop")
 							}
@@ -621,6 +736,12 @@ func ruleE5Loops(c *Ctx) []Ob {
 					s.ok(key+":cursor", pos, "every iteration advances the input cursor by at least 1 and the cursor never exceeds len(b)")
 					continue
 				}
+			}
+			// (d) a loop the message has no say in: every exit test is computed from descriptors, constants and library calls on
+			// them (walking a reflect.Type to name a field), never from the input bytes or from decoded memory
+			if loopIndependentOfInput(fn, b) {
+				s.ok(key+":descriptor", pos, "the loop's exit tests do not depend on the input (descriptor walk): a message cannot drive its trip count")
+				continue
 			}
 			s.undec(key, pos, "loop in the decode closure that is neither counted over a sanitised length, nor a strictly advancing bounded cursor, nor a range loop")
 		}
@@ -665,4 +786,161 @@ func rootOfAddr(v ssa.Value) ssa.Value {
 func isBuiltinCall(call *ssa.Call) bool {
 	_, ok := call.Call.Value.(*ssa.Builtin)
 	return ok
+}
+
+// loopIndependentOfInput: every test that can leave the loop headed by hdr is computed without the input buffer and without
+// memory the decoder writes: from constants, parameters other than the input and the destination, fields of descriptors,
+// package-level variables, and calls of non-module functions on such values.
+func loopIndependentOfInput(fn *ssa.Function, hdr *ssa.BasicBlock) bool {
+	inLoop := func(x *ssa.BasicBlock) bool { return x == hdr || hdr.Dominates(x) && blockReaches(x, hdr) }
+	seen := map[ssa.Value]bool{}
+	var indep func(v ssa.Value, d int) bool
+	descRoot := func(t types.Type) bool {
+		switch namedOf(t) {
+		case "structDesc", "tType", "tField":
+			return true
+		}
+		return false
+	}
+	var addrOK func(a ssa.Value, d int) bool
+	addrOK = func(a ssa.Value, d int) bool {
+		if d > 12 {
+			return false
+		}
+		switch x := a.(type) {
+		case *ssa.FieldAddr:
+			return addrOK(x.X, d+1)
+		case *ssa.IndexAddr:
+			return addrOK(x.X, d+1) && indep(x.Index, d+1)
+		case *ssa.Global:
+			return true
+		case *ssa.Parameter:
+			return descRoot(x.Type())
+		case *ssa.UnOp:
+			if x.Op == token.MUL { // pointer loaded from a descriptor
+				return addrOK(x.X, d+1)
+			}
+		case *ssa.Call:
+			return descRoot(x.Type()) && indep(x, d+1) // a descriptor looked up from independent values
+		case *ssa.Alloc:
+			if x.Heap {
+				return false
+			}
+			for _, r := range referrers(x) {
+				switch y := r.(type) {
+				case *ssa.Store:
+					if y.Addr != ssa.Value(x) || !indep(y.Val, d+1) {
+						return false
+					}
+				case *ssa.FieldAddr, *ssa.UnOp, *ssa.DebugRef:
+				default:
+					return false
+				}
+			}
+			return true
+		}
+		return false
+	}
+	indep = func(v ssa.Value, d int) bool {
+		if d > 12 {
+			return false
+		}
+		if seen[v] {
+			return true
+		}
+		seen[v] = true
+		switch x := v.(type) {
+		case *ssa.Const, *ssa.Global, *ssa.Function:
+			return true
+		case *ssa.Parameter:
+			return !isByteSlice(x.Type()) && !isUnsafePointer(x.Type())
+		case *ssa.BinOp:
+			return indep(x.X, d+1) && indep(x.Y, d+1)
+		case *ssa.Convert:
+			return indep(x.X, d+1)
+		case *ssa.ChangeType:
+			return indep(x.X, d+1)
+		case *ssa.Extract:
+			return indep(x.Tuple, d+1)
+		case *ssa.Field:
+			return indep(x.X, d+1)
+		case *ssa.Phi:
+			for _, e := range x.Edges {
+				if !indep(e, d+1) {
+					return false
+				}
+			}
+			return true
+		case *ssa.UnOp:
+			if x.Op == token.MUL {
+				return addrOK(x.X, d+1)
+			}
+			return indep(x.X, d+1)
+		case *ssa.Call:
+			if _, isBuiltin := x.Call.Value.(*ssa.Builtin); !isBuiltin {
+				f := x.Call.StaticCallee()
+				if x.Call.IsInvoke() {
+					// a method of an interface value: only library interfaces (reflect.Type)
+					if !indep(x.Call.Value, d+1) || namedOf(x.Call.Value.Type()) != "Type" {
+						return false
+					}
+				} else if f == nil || f.Pkg != nil && f.Pkg.Pkg.Path() == fn.Pkg.Pkg.Path() && !descRoot(x.Type()) {
+					return false // module code, except a descriptor lookup (GetField): a descriptor computed from descriptors
+				}
+			}
+			for _, a := range x.Call.Args {
+				if !indep(a, d+1) {
+					return false
+				}
+			}
+			return true
+		}
+		return false
+	}
+	nExit := 0
+	for _, x := range fn.Blocks {
+		if !inLoop(x) {
+			continue
+		}
+		iff, ok := x.Instrs[len(x.Instrs)-1].(*ssa.If)
+		if !ok {
+			continue
+		}
+		leaves := false
+		for _, sc := range x.Succs {
+			if !inLoop(sc) {
+				leaves = true
+			}
+		}
+		if !leaves {
+			continue
+		}
+		nExit++
+		if !indep(iff.Cond, 0) {
+			return false
+		}
+	}
+	return nExit > 0
+}
+
+// isWireLength: a 32-bit length or count read from the input (int(int32(BigEndian.Uint32(..))) or through a helper), as
+// opposed to a field id or a type byte.
+func isWireLength(v ssa.Value) bool {
+	for d := 0; d < 6; d++ {
+		switch x := v.(type) {
+		case *ssa.Convert:
+			if b, ok := x.X.Type().Underlying().(*types.Basic); ok && (b.Kind() == types.Int32 || b.Kind() == types.Uint32) {
+				return true
+			}
+			v = x.X
+		case *ssa.Phi:
+			if len(x.Edges) == 0 {
+				return false
+			}
+			v = x.Edges[0]
+		default:
+			return false
+		}
+	}
+	return false
 }
